@@ -63,16 +63,20 @@ def lticksCmd (f : List String) : Option String :=
     let step := (tickRange d0 d1 m).2.2
     let mt := Scale.ticks d0 d1 m
     -- relation: same count and values within 1e-6 step, or an end effect (impl is the model list minus/plus one end tick)
-    let close (a b : List Rat) : Bool := a.length == b.length && (a.zip b).all (fun p => decide (ratAbs (p.1 - p.2) ≤ step / 1000000))
-    let same := close l mt || close l mt.dropLast || close l (mt.drop 1) || close l.dropLast mt || close (l.drop 1) mt
-    let prop := ticksOKB d0 d1 m l
+    -- absolute float resolution at the magnitude of the domain (ticks are accumulated sums: allow 2^-44 relative)
+    let ftol := ratMax (ratAbs d0) (ratAbs d1) / 17592186044416
+    let close (a b : List Rat) : Bool := a.length == b.length && (a.zip b).all (fun p => decide (ratAbs (p.1 - p.2) ≤ step / 1000000 + ftol))
+    -- up to one tick more or less at either end (float end effects)
+    let trims (x : List Rat) : List (List Rat) := [x, x.drop 1, x.dropLast, (x.drop 1).dropLast]
+    let same := (trims l).any (fun a => (trims mt).any (fun b => close a b))
+    let prop := ticksOKB ftol d0 d1 m l
     let form := stepFormB step
     let txt := textsOKB step l texts
     let mtexts := mt.map (fun x => formatFixed x (tickDecimals step))
-    let mOK := ticksOKB d0 d1 m mt && textsOKB step mt mtexts && form
+    let mOK := ticksOKB 0 d0 d1 m mt && textsOKB step mt mtexts && form
     -- texts agree with the model up to the sign of a zero
     let normz (s : String) : String := if s.startsWith "-" && (s.drop 1).all (fun c => c == '0' || c == '.') then (s.drop 1).toString else s
-    let sameTxt := l.length != mt.length || texts.map normz == mtexts.map normz
+    let sameTxt := !close l mt || texts.map normz == mtexts.map normz
     some s!"lticks same={if tie then "tie" else okL same} sametxt={if tie then "tie" else okL sameTxt} prop={if tie then "tie" else okL prop} form={okL form} texts={if tie then "tie" else okL txt} model={okL mOK} n={mt.length}"
   | _ => none
 
@@ -88,14 +92,22 @@ def lniceCmd (f : List String) : Option String :=
     let e1 := extent p1.1 p1.2
     let tie := tickStepTie (e.2 - e.1) m || tickStepTie (e1.2 - e1.1) m
     let step := (tickRange r.1 r.2 m).2.2
-    -- relation: equal within 1e-6 step, or further OUT by one or two whole steps (a float quotient landing just past an integer)
-    let endOK (obs mod : Rat) (outward : Rat) : Bool :=
-      [0, 1, 2].any (fun (k : Nat) => decide (ratAbs (obs - (mod + outward * (k : Rat) * step)) ≤ step / 1000000))
-    let lo := ratMin r.1 r.2; let hi := ratMax r.1 r.2
+    -- relation: the float computation may land on the other side of an integer when a quotient `x/step` is within rounding of one:
+    -- (1) in pass 1, as if the input end had been nudged by a relative 1e-12; (2) in pass 2, where the exact ends *are* multiples,
+    -- pushing an end one further step out.  Whether the observed result is acceptable is decided by `niceOKB`, not by this relation.
+    let nudges : List Rat := [0, 1 / 1000000000000, -1 / 1000000000000]
     let olo := ratMin n0 n1; let ohi := ratMax n0 n1
-    let same := decide (0 < step) && endOK olo lo (-1) && endOK ohi hi 1
-    let prop := niceOKB d0 d1 m n0 n1
-    let mOK := niceOKB d0 d1 m r.1 r.2
+    let same := nudges.any (fun e0 => nudges.any (fun e1 =>
+      let span := ratAbs (d1 - d0)
+      let rr := Scale.nice (d0 + e0 * (ratAbs d0 + span)) (d1 + e1 * (ratAbs d1 + span)) m
+      let st := (tickRange rr.1 rr.2 m).2.2
+      let lo := ratMin rr.1 rr.2; let hi := ratMax rr.1 rr.2
+      let endOK (obs mod outward : Rat) : Bool :=
+        [0, 1].any (fun (k : Nat) => decide (ratAbs (obs - (mod + outward * (k : Rat) * st)) ≤ st / 1000000 + ratAbs mod / 281474976710656))
+      decide (0 < st) && endOK olo lo (-1) && endOK ohi hi 1))
+    let ftol := ratMax (ratMax (ratAbs d0) (ratAbs d1)) (ratMax (ratAbs n0) (ratAbs n1)) / 281474976710656
+    let prop := niceOKB ftol d0 d1 m n0 n1
+    let mOK := niceOKB 0 d0 d1 m r.1 r.2
     some s!"lnice same={if tie then "tie" else okL same} prop={okL prop} model={okL mOK} moved={if r == (d0, d1) then 0 else 1}"
   | _ => none
 
